@@ -1210,6 +1210,8 @@ pub const BUGS: &[&str] = &[
     "zlib-split-a",
     "zlib-split-b",
     "color-profile-icc",
+    "palette-shift-a",
+    "palette-shift-b",
 ];
 
 fn ensure_tilemap(s: &mut SpriteSpec, r: &mut Rng) -> usize {
@@ -1914,6 +1916,24 @@ pub fn apply_bug(s: &mut SpriteSpec, bug: &str, r: &mut Rng, scale: usize) -> St
             }
             "pixel payload with a stray byte".into()
         }
+        "empty-cel" if r.chance(1, 2) => {
+            // a tilemap cel with a zero dimension and, consistently, no tiles
+            let i = ensure_tilemap(s, r);
+            if let CelBody::Tilemap { w, h, tiles, .. } = &mut s.cels[i].body {
+                match r.below(3) {
+                    0 => *w = 0,
+                    1 => *h = 0,
+                    _ => {
+                        *w = 0;
+                        *h = 0
+                    }
+                }
+                tiles.clear();
+                format!("tilemap cel {}x{} with no tiles", w, h)
+            } else {
+                String::new()
+            }
+        }
         "empty-cel" => {
             let i = ensure_raw(s, r);
             if let CelBody::Raw { w, h, pixels, .. } = &mut s.cels[i].body {
@@ -2172,18 +2192,61 @@ pub fn apply_bug(s: &mut SpriteSpec, bug: &str, r: &mut Rng, scale: usize) -> St
                 });
             }
             let v = if s.fmt == Fmt::Indexed { *index_domain(s).first().unwrap_or(&0) } else { 0 };
+            let as_tilemap = scale < 64 && r.chance(1, 3);
+            let li = if as_tilemap {
+                // the big compressible thing is a tile grid on a tilemap layer instead of an image
+                if s.tilesets.is_empty() {
+                    s.tilesets.push(TilesetSpec {
+                        id: 0,
+                        flags: 6,
+                        count: 2,
+                        tw: 1,
+                        th: 1,
+                        base_index: 1,
+                        name: "t".into(),
+                        pixels: vec![v; 2 * bpp],
+                        level: 6,
+                        ext: (0, 0),
+                    });
+                }
+                let tsid = s.tilesets[0].id;
+                s.layers.push(LayerSpec {
+                    flags: 1,
+                    kind: 2,
+                    tileset: tsid,
+                    level: 0,
+                    blend: 0,
+                    opacity: 255,
+                    name: "grid".into(),
+                    ud: None,
+                });
+                (s.layers.len() - 1) as u16
+            } else {
+                li
+            };
             s.cels.push(CelSpec {
                 frame: 0,
                 layer: li,
                 x: 0,
                 y: 0,
                 opacity: 255,
-                body: CelBody::Raw {
-                    w: side,
-                    h: side,
-                    pixels: vec![v; side as usize * side as usize * bpp],
-                    compressed: true,
-                    level: 9,
+                body: if as_tilemap {
+                    CelBody::Tilemap {
+                        w: side,
+                        h: side,
+                        bits: 32,
+                        masks: [0x1fff_ffff, 0x8000_0000, 0x4000_0000, 0x2000_0000],
+                        tiles: vec![1; side as usize * side as usize],
+                        level: 9,
+                    }
+                } else {
+                    CelBody::Raw {
+                        w: side,
+                        h: side,
+                        pixels: vec![v; side as usize * side as usize * bpp],
+                        compressed: true,
+                        level: 9,
+                    }
                 },
                 ud: None,
                 extra: false,
@@ -2268,6 +2331,39 @@ pub fn apply_bug(s: &mut SpriteSpec, bug: &str, r: &mut Rng, scale: usize) -> St
                 s.cels[i].body = CelBody::Opaque { cel_type: 2, body };
             }
             format!("{} half of a zlib stream cut between two deflate blocks", if bug == "zlib-split-a" { "first" } else { "second" })
+        }
+        "palette-shift-a" | "palette-shift-b" => {
+            // Two indexed files with palettes of the same size but different index ranges; the
+            // pixels of both use A's range, so B alone is invalid. Anything remembered about "the
+            // palette" across loads (validity tables, lookups keyed by address or size) lets B in.
+            s.fmt = Fmt::Indexed;
+            s.legacy = None;
+            s.sprite_ud = None;
+            s.tilesets.clear();
+            for l in &mut s.layers {
+                if l.kind == 2 {
+                    l.kind = 0;
+                }
+            }
+            s.cels.retain(|c| !matches!(c.body, CelBody::Tilemap { .. }));
+            let n = 4usize;
+            let first = if bug == "palette-shift-a" { 0 } else { n as u32 };
+            s.palette = Some(PaletteSpec {
+                first,
+                entries: (0..n).map(|i| ([i as u8 * 50, 9, 200, 255], None)).collect(),
+            });
+            s.transparent = 200;
+            let dom_a: Vec<u8> = (0..n as u8).collect();
+            for c in &mut s.cels {
+                if let CelBody::Raw { w, h, pixels: p, .. } = &mut c.body {
+                    *p = pixels(r, Fmt::Indexed, *w as usize * *h as usize, &dom_a);
+                }
+            }
+            let i = ensure_raw(s, r);
+            if let CelBody::Raw { w, h, pixels: p, .. } = &mut s.cels[i].body {
+                *p = pixels(r, Fmt::Indexed, *w as usize * *h as usize, &dom_a);
+            }
+            format!("palette {}..={} with pixel values 0..={}", first, first as usize + n - 1, n - 1)
         }
         "color-profile-icc" => {
             s.color_profile = Some(*r.pick(&[2u16, 2, 3, 0xFFFF]));
